@@ -23,7 +23,7 @@ Import ListNotations.
 Open Scope Z_scope.
 """
 
-KINDS = ['random', 'integer', 'ties', 'plateau', 'mono_inc', 'mono_dec', 'negative', 'peaks', 'constant']
+KINDS = ['random', 'integer', 'ties', 'plateau', 'mono_inc', 'mono_dec', 'negative', 'peaks', 'constant', 'offset_big', 'tiny']
 INT_KINDS = ['integer', 'ties', 'plateau', 'mono_inc', 'mono_dec', 'negative', 'constant']
 
 
@@ -51,7 +51,41 @@ def gen_data(rng, n, kind):
         for _ in range(3):
             y += rng.uniform(1, 10) * np.exp(-0.5 * ((x - rng.uniform(0, n)) / rng.uniform(0.5, 1 + n / 10)) ** 2)
         return y
+    if kind in ('offset_big', 'tiny'):
+        # extreme ratio between the largest value and the depth of the features
+        t = np.linspace(0, 1, n)
+        feat = rng.uniform(0.3, 1.5) * (t - 0.4) ** 2 + rng.uniform(-1, 1) * t
+        for _ in range(3):
+            feat = feat + rng.uniform(0.2, 1.0) * np.exp(-0.5 * ((t - rng.uniform(0, 1)) / rng.uniform(0.01, 0.1)) ** 2)
+        if kind == 'offset_big':
+            return 0.1 * feat + rng.normal(0, 0.01, n) + float(rng.choice([1e5, -1e6, 1e6]))
+        return 1e-3 * feat + rng.normal(0, 1e-6, n)
     return np.full(n, float(rng.integers(-3, 4)))
+
+
+SCALE_KINDS = ['spectro', 'spectro_noise', 'offset', 'largex']
+
+
+def gen_scale(rng, kind, n):
+    """(x, y) whose largest coordinate is 1e5..1e9 times the depth of the convex parts of the lower envelope:
+    smooth noise-free shallow-convex backgrounds, x in wavenumbers with y in absorbance, order-one data on an
+    offset of 1e5..1e6, unevenly spaced x in large units.  |x| <= 4000 and |offset| <= 1e6 (beyond that qhull's own
+    coplanarity tolerance, ~10 eps * max|coordinate|, becomes visible at the 1e-10 level on the unchanged code)."""
+    t = np.linspace(0, 1, n)
+    peaks = np.zeros(n)
+    for _ in range(int(rng.integers(0, 4))):
+        peaks += rng.uniform(0.2, 1.0) * np.exp(-0.5 * ((t - rng.uniform(0, 1)) / rng.uniform(0.005, 0.05)) ** 2)
+    a, b = rng.uniform(0.3, 1.5), rng.uniform(-1, 1)
+    bg = a * (t - rng.uniform(0.2, 0.8)) ** 2 + b * t
+    if kind == 'spectro':
+        return np.linspace(400, 4000, n), 1e-3 * (bg + peaks)
+    if kind == 'spectro_noise':
+        return np.linspace(400, 4000, n), 1e-3 * (bg + peaks) + rng.normal(0, 1e-9, n)
+    if kind == 'offset':
+        return np.linspace(-1, 1, n), 0.1 * (bg + peaks) + float(rng.choice([1e5, -1e5, 1e6, -1e6, 3e5]))
+    x = np.sort(rng.uniform(1000, 4000, n) + np.arange(n) * 1e-6)
+    tt = (x - 1000) / 3000
+    return x, 0.5 * (a * (tt - 0.4) ** 2 + b * tt) + peaks
 
 
 def flist(fs):
@@ -429,7 +463,7 @@ def oracle_one(ctx, case):
                          f'fl(tophat(y) + c), c={c!r} (max diff {float(np.max(np.abs(shifted - (base + c)))):.6g})', case)
         elif meth == 'mor':
             shifted = quiet(f.mor, y + c, half_window=h)[0]
-            if not np.allclose(shifted, base + c, rtol=0, atol=1e-9 * scale):
+            if not np.allclose(shifted, base + c, rtol=0, atol=1e-12 * scale):
                 ctx.fail(f'shift:mor:{dim}', f'mor ({dim}, half_window={h}): mor(y + c) != mor(y) + c, c={c!r} '
                          f'(max diff {float(np.max(np.abs(shifted - base - c))):.6g})', case)
     elif meth == 'snip':
@@ -439,7 +473,7 @@ def oracle_one(ctx, case):
         tagk = f'order{case["filter_order"]}:{"dec" if case["decreasing"] else "inc"}'
         check_le(ctx, f'le:snip:{tagk}', f'snip ({kw})', base, y, case)
         shifted = quiet(fitter().snip, y + c, **kw)[0]
-        if base.shape == shifted.shape and not np.allclose(shifted, base + c, rtol=0, atol=1e-8 * scale):
+        if base.shape == shifted.shape and not np.allclose(shifted, base + c, rtol=0, atol=1e-10 * scale):
             ctx.fail(f'shift:snip:{tagk}', f'snip ({kw}): snip(y + c) != snip(y) + c, c={c!r} '
                      f'(max diff {float(np.max(np.abs(shifted - base - c))):.6g})', case)
     elif meth == 'rubberband':
@@ -451,12 +485,23 @@ def oracle_one(ctx, case):
         if case.get('segments', 1) != 1:
             return len(ctx.violations) + len(ctx.known_hit) - before
         mask = np.asarray(params['mask'])
-        tol = 1e-9 * scale
         if base.shape != y.shape:
             ctx.fail('rubberband:shape', 'rubberband: baseline shape differs from the data', case)
             return 1
+        # calibrated tolerance: qhull treats points within ~10 eps * max|coordinate| of a facet as coplanar (measured
+        # <= 15 units on the unchanged code over all data kinds); K = 1000 units, times (1 + steepest hull slope) to turn
+        # a perpendicular distance into a vertical one.  Any joggle / tolerance option of qhull is ~3e4 units or more.
+        hull = lower_hull(x, y)
+        ref = np.interp(x, x[hull], y[hull])
+        slopes = np.abs(np.diff(y[hull]) / np.diff(x[hull])) if len(hull) > 1 else np.zeros(1)
+        sfac = 1.0 + float(slopes.max())
+        eps = float(np.finfo(float).eps)
+        unit = eps * max(float(np.abs(x).max()), float(np.abs(y).max()), 1e-300) * sfac
+        unit_s = eps * max(float(np.abs(x).max()), float(np.abs(y + c).max()), float(np.abs(y).max()), 1e-300) * sfac
+        tol, tol_s = 1000 * unit, 1000 * unit_s
         if np.any(base > y + tol):
-            ctx.fail('rubberband:below', f'rubberband baseline exceeds the data by {float(np.max(base - y)):.6g}', case)
+            ctx.fail('rubberband:below', f'rubberband baseline exceeds the data by {float(np.max(base - y)):.6g} '
+                     f'(tolerance {tol:.3g} = 1000 eps max|coordinate| (1 + max hull slope))', case)
         if not np.array_equal(base[mask], y[mask]):
             ctx.fail('rubberband:touch', 'rubberband baseline does not pass through its hull vertices', case)
         if not (mask[0] and mask[-1]):
@@ -468,15 +513,13 @@ def oracle_one(ctx, case):
             xscale = float(np.max(np.abs(x))) + 1.0
             if np.any(cross < -1e-9 * scale * xscale):
                 ctx.fail('rubberband:convex', f'rubberband baseline is not convex (min cross product {float(cross.min()):.6g})', case)
-        hull = lower_hull(x, y)
-        ref = np.interp(x, x[hull], y[hull])
-        if not np.allclose(base, ref, rtol=0, atol=1e-7 * scale):
-            ctx.fail('rubberband:hull', f'rubberband baseline differs from the lower convex hull computed exactly '
-                     f'(max diff {float(np.max(np.abs(base - ref))):.6g})', case)
+        if not np.allclose(base, ref, rtol=0, atol=tol):
+            ctx.fail('rubberband:hull', f'rubberband baseline differs from the lower convex hull computed in exact rationals '
+                     f'(max diff {float(np.max(np.abs(base - ref))):.6g}, tolerance {tol:.3g})', case)
         shifted = quiet(fitter(x).rubberband, y + c)[0]
-        if not np.allclose(shifted, base + c, rtol=0, atol=1e-7 * scale):
+        if not np.allclose(shifted, base + c, rtol=0, atol=tol_s):
             ctx.fail('rubberband:shift', f'rubberband(y + c) != rubberband(y) + c, c={c!r} '
-                     f'(max diff {float(np.max(np.abs(shifted - base - c))):.6g})', case)
+                     f'(max diff {float(np.max(np.abs(shifted - base - c))):.6g}, tolerance {tol_s:.3g})', case)
     return len(ctx.violations) + len(ctx.known_hit) - before
 
 
@@ -487,7 +530,7 @@ def oracle(ctx, budget):
     for cidx in range(ncase):
         kind = KINDS[cidx % len(KINDS)]
         slot = (cidx // len(KINDS)) % 8
-        shift = float(rng.choice([1.0, -3.0, 0.1, 1e6 / 7, -123.456, float(rng.normal(0, 100))]))
+        shift = float(rng.choice([1.0, -3.0, 0.1, 1e6 / 7, -123.456, 1e6, -1e6, float(rng.normal(0, 100))]))
         if slot in (0, 1, 2):
             meth = ('tophat', 'mor', 'imor')[slot]
             n = int(rng.choice([1, 2, 3, 5, 8, 13, 30, 64, 151]))
@@ -517,6 +560,15 @@ def oracle(ctx, budget):
                     'pad_kwargs': PAD_KW[int(rng.integers(0, len(PAD_KW)))], 'shift': shift, 'data': kind}
             nontriv = True
             label = f'oracle:snip:order{case["filter_order"]}:{"dec" if case["decreasing"] else "inc"}'
+        elif cidx % 2:
+            # scale-ratio data: largest coordinate 1e5..1e9 times the depth of the shallow convex parts
+            sk = SCALE_KINDS[(cidx // 2) % len(SCALE_KINDS)]
+            n = int(rng.choice([300, 600, 1000]))
+            xs_, ys_ = gen_scale(rng, sk, n)
+            case = {'method': 'rubberband', 'y': ys_.tolist(), 'x': xs_.tolist(),
+                    'shift': float(rng.choice([1e6, -1e6, 1e5, 12345.678, 1.0])), 'data': sk, 'xkind': sk}
+            nontriv = True
+            label = f'oracle:rubberband:scale-ratio:{sk}'
         else:
             n = int(rng.choice([3, 4, 6, 10, 25, 80, 200]))
             xk = ['uniform', 'integer', 'random'][cidx % 3]
@@ -538,7 +590,11 @@ def oracle(ctx, budget):
 
 
 def run(ctx):
-    ctx.rule = ('data kinds random/integer/ties/plateau/monotone increasing/decreasing/negative/peaks/constant; '
+    ctx.rule = ('data kinds random/integer/ties/plateau/monotone increasing/decreasing/negative/peaks/constant/offset_big (order-one features '
+                'on +-1e5..1e6)/tiny (1e-3 features, shifts up to +-1e6); rubberband additionally scale-ratio kinds (N 300..1000): smooth noise-free '
+                'shallow-convex backgrounds with x in wavenumbers 400..4000 and y ~1e-3, the same with 1e-9 noise, order-one data on offsets '
+                '1e5..1e6, unevenly spaced x in 1000..4000, compared with an exact-rational lower hull within 1000 eps max|coordinate| '
+                '(1 + steepest hull slope) (unchanged code measured <= 15 such units; qhull joggle/tolerance options are >= 3e4); '
                 'operator correspondence: N 1..30 with half windows 1..N+3 (40) plus large cases up to N=200, h=150 '
                 '(2h+1 > N included), 2-D up to 8x9 with half windows up to 10; float correspondence: tophat/mor/imor '
                 '(N 1..40, exit and no-exit runs), snip (N 3..40, orders 2/4/6/8, both directions, asymmetric and clipped '
